@@ -193,16 +193,16 @@ def main():
     quick = ck.tier == 'quick'
     dl = ck.deadline
     plan = [(4, 1), (3, 2), (5, 1)] if quick else [(5, 1), (4, 2), (6, 1), (5, 2)]      # cheapest first, the deepest bound last
-    def run_plan(N, nins):
+    def run_plan(N, nins, forms=FORMS):
         shards = []
         for sid in USE:
             sch = FAM[sid]
             alpha = words_for(sch)
             inner, frontier = viable_prefix_words(sch, alpha, 2)
-            shards.append((sid, 0, nins, inner, FORMS, dl))
+            shards.append((sid, 0, nins, inner, forms, dl))
             for ch in engine.chunks(frontier, 3):
-                shards.append((sid, N, nins, ch, FORMS, dl))
-        engine.phase(ck, 'E1 N=%d x %d insertion(s) x annotations off/on' % (N, nins), shard, shards, schemas=len(USE), forms=len(FORMS))
+                shards.append((sid, N, nins, ch, forms, dl))
+        engine.phase(ck, 'E1 N=%d x %d insertion(s) x annotations off/on' % (N, nins), shard, shards, schemas=len(USE), forms=len(forms))
     for N, nins in plan[:-1]:
         run_plan(N, nins)
     DEEPFORMS = [b'/* a\n b */', b'#c\n', b'/*c*/', b'\n', b'# c\r\n']
@@ -216,9 +216,9 @@ def main():
         for ch in engine.chunks(frontier, 2):
             shards.append((sid, 100 + Nd, 1, ch, DEEPFORMS, dl))
     engine.phase(ck, 'E1 reduced alphabet N=%d x 1 insertion x annotations off/on (options inside sections)' % Nd, shard, shards, schemas=4, forms=len(DEEPFORMS))
-    run_plan(*plan[-1])
-    ck.assumptions = ['an annotation is asserted only for a comment immediately in front of a scalar or braced non-empty list assignment; what other '
-                      'comments become is not compared', 'the bare-value list form (l = v) is not asserted to take an annotation']
+    run_plan(*plan[-1], forms=(FORMS[:18] if quick else FORMS))      # quick: the deepest bound with the first 18 forms
+    ck.assumptions = ['an annotation is asserted only for a comment immediately in front of a scalar or non-empty list assignment (braced or one bare '
+                      'value); what other comments become is not compared']
     ck.finish('E1 token sequence x insertion position(s) x comment / white-space form x annotation flag; non-trivial = distinct accepted texts')
 
 
